@@ -841,7 +841,13 @@ func oracleRelease(o *e2eOutcome, v vfn) {
 			if r.ViaDone && r.CacheHash != "" {
 				relHash = r.CacheHash
 			}
-			if r.Gen >= 2 && !everTransmitted(o, r.Name, relHash) && otherVersionHeld(o, r.Name, relHash) {
+			// every name-only-poll pattern rests on a positive answer given AFTER the sender
+			// had hashed the released version (it asked about that version and was answered
+			// for another one); a release without such an answer is something else
+			polledSince := hashedBefore(o, r.Name, relHash, lastPositivePoll(o, r.Name, r.VT))
+			if !polledSince {
+				// unclassified
+			} else if r.Gen >= 2 && !everTransmitted(o, r.Name, relHash) && otherVersionHeld(o, r.Name, relHash) {
 				fp = "released-after-restart-on-name-only-poll"
 			} else if claimedUnseen(o, r.Name, relHash) {
 				// the receiver told the sender that it holds parts of this version which it
@@ -937,6 +943,22 @@ func claimedUnseen(o *e2eOutcome, name, hash string) bool {
 			if !seen && !deliveredVersion(o, name, hash) {
 				return true
 			}
+		}
+	}
+	return false
+}
+
+// hashedBefore: the sender's cache took in (name, hash) before event number seq
+func hashedBefore(o *e2eOutcome, name, hash string, seq int) bool {
+	if seq < 0 {
+		return false
+	}
+	for _, e := range o.events {
+		if e.Seq >= seq {
+			break
+		}
+		if e.Kind == "cache_add" && e.Name == name && e.S == hash {
+			return true
 		}
 	}
 	return false
